@@ -256,12 +256,16 @@ class DateTime:
             default=self.default_input_timezone,
         )
 
-        return dates.format_datetime(
-            _parse_datetime(left, input_tzinfo),
-            format=_format,
-            locale=locale,
-            tzinfo=tzinfo,
-        )
+        try:
+            return dates.format_datetime(
+                _parse_datetime(left, input_tzinfo),
+                format=_format,
+                locale=locale,
+                tzinfo=tzinfo,
+            )
+        except (OSError, OverflowError) as err:
+            # A timestamp that the platform can not represent.
+            raise LiquidValueError(str(err), token=None) from err
 
     def _resolve_timezone(
         self,
